@@ -310,6 +310,7 @@ ADDED = {
     'C03': 'Validators and assertion parts that an object keeps and traverses in both validation rounds are never one-shot iterators (generator expressions, map, filter handed to a constructor that stores them).',
     'C05': 'Every way the replacer can be constructed is analysed (a flag set in the constructor selects a path): on each the text is substituted by the compiled pattern itself.',
     'C07': 'The document parser and the act-phase parser recognise a section header by one and the same predicate (resolved callee identity).',
+    'C09': 'A rest-of-line string (`:> TEXT`) is exactly one reading of the rest of the line, optionally stripped; where the scanner has found a reference the fragments end with the symbol fragment of its name on every path.',
     'C10': 'The code that runs the action to check does not read the text of stdin itself (a program used as text source would run twice).',
     'C11': 'The act set reaches the process unchanged through AtcExecutionInputAdv.resolve (None stays None); an environment emptied by `env unset` is never treated like "inherit" (no truth test of an optional mapping); REC of the settings records (the getter of a kept parameter hands out the kept value).',
     'C12': 'A path built from a path-or-string symbol gets the default relativity of the argument being parsed at every construction; the transitive part of a reference restriction examines every reference of every definition (fold with two checks per element, going on after a passing element).',
